@@ -50,18 +50,13 @@ Section Hashed.
 End Hashed.
 
 Section Expanding.
-  Variable EV : str -> option str.
+  Variable EV : str -> evr.
 
   (* VarExportSpec::apply_env: the content (or ${variable}) expanded with IfMissing::Empty;
-     the code unwraps the result: an expansion error here is a panic (site 1) *)
+     expansion errors are propagated (after the C15 fix; the pinned code unwrapped them) *)
   Definition apply_export (env : fenv) (e : export_spec) : res export_spec :=
     let content := match snd e with Some c => c | None => S_ "${" ++ fst e ++ S_ "}" end in
-    match expand_eval EV env PEmpty content with
-    | Ok v => Ok (fst e, Some v)
-    | Err _ => Panic 1
-    | Panic n => Panic n
-    | Fuel => Fuel
-    end.
+    rmap (fun v => (fst e, Some v)) (expand_eval EV env PEmpty content).
 
   Definition export_prefix (l : list export_spec) : str :=
     flat_map (fun e => match snd e with
